@@ -258,7 +258,7 @@ Theorem C12_source_translation :
    match gen_set_peer with Some f => forall s p, snd (f s p) = notifies s (SetPeer p) | None => True end /\
    match gen_replay_chunks_from with Some f => forall s n, snd (f s n) = notifies s (Replay n) | None => True end) /\
   match gen_wait_for_credit with
-  | Some f => forall s len expired,
+  | Some f => forall s len expired, t_window s < two64 ->
       let '(s', i, nt) := f s len expired in
       s' = s /\ nt = false /\ returned i = ready (WCredit len) s || expired /\
       (ready (WCredit len) s = true -> iter_map wres_of_credit i = Some (snd (waiter_return (WCredit len) s))) /\
@@ -294,7 +294,7 @@ Check C12_source_translation :
    match gen_set_peer with Some f => forall s p, snd (f s p) = notifies s (SetPeer p) | None => True end /\
    match gen_replay_chunks_from with Some f => forall s n, snd (f s n) = notifies s (Replay n) | None => True end) /\
   match gen_wait_for_credit with
-  | Some f => forall s len expired,
+  | Some f => forall s len expired, t_window s < two64 ->
       let '(s', i, nt) := f s len expired in
       s' = s /\ nt = false /\ returned i = ready (WCredit len) s || expired /\
       (ready (WCredit len) s = true -> iter_map wres_of_credit i = Some (snd (waiter_return (WCredit len) s))) /\
